@@ -66,7 +66,31 @@ def check(case):
         return res
 
     with specmod.quiet():
-        M = specmod.to_model(sp)
+        if case.get("refusals"):
+            # the reaction list is built call by call, and some calls in between are refused (they name a species that
+            # does not exist): a refused reaction is not part of the model, the accepted ones are - in their order
+            M = specmod.to_model(dict(sp, reactions=[]), initialize=False)
+            for j in range(len(sp["reactions"]) + 1):
+                for kind in [k for pos, k in case["refusals"] if pos == j]:
+                    some = sp["species"][0]
+                    bad = {"hill_unknown_species": ([some], [some, some], "hillpositive",
+                                                    {"k": 1.0, "K": 5.0, "n": 2.0, "s1": "X_undeclared"}),
+                           "massaction_unknown_species": ([some], [], "massaction", {"k": 1.0, "species": some + "*Y_undeclared"}),
+                           "delayed_hill_unknown_species": ([], [some], "hillnegative",
+                                                            {"k": 1.0, "K": 2.0, "n": 1.0, "s1": "X_undeclared"}, "fixed",
+                                                            [some], [some, some], {"delay": 1.0})}[kind]
+                    try:
+                        M.create_reaction(*bad)
+                    except (KeyError, ValueError):
+                        res.label("refused_call_between_reactions:" + kind)
+                    else:
+                        res.skip = "the invalid reaction was not refused"
+                        return res
+                if j < len(sp["reactions"]):
+                    M.create_reaction(*specmod.reaction_tuple(sp["reactions"][j]))
+            M.py_initialize()
+        else:
+            M = specmod.to_model(sp)
     s2i = M.get_species2index()
     if sorted(s2i) != sorted(sp["species"]):
         res.fail(("species_set",), got=sorted(s2i), expected=sorted(sp["species"]))
@@ -177,7 +201,14 @@ def cases(draw):
         state = {s: draw(gen.fl(0.05 if positive else 0.0, 10)) if draw(st.integers(0, 3)) else (1.0 if positive else 0.0)
                  for s in sp["species"]}
         points.append({"state": state, "t": draw(st.sampled_from([0.0, 0.5, 2.0, 5.0]))})
-    return {"kind": "model", "spec": sp, "points": points, "extra_preps": draw(st.sampled_from([0, 0, 1, 2]))}
+    refusals = []
+    if draw(st.integers(0, 5)) == 0:
+        for _ in range(draw(st.integers(1, 2))):
+            refusals.append([draw(st.integers(0, len(sp["reactions"]))),
+                             draw(st.sampled_from(["hill_unknown_species", "massaction_unknown_species",
+                                                   "delayed_hill_unknown_species"]))])
+    return {"kind": "model", "spec": sp, "points": points, "extra_preps": draw(st.sampled_from([0, 0, 1, 2])),
+            "refusals": refusals}
 
 
 def search(ctx):
